@@ -2,7 +2,7 @@
    Statements only; the model (Stack.v) is the Exec layer, tied to memory_stack<> by lock-step replay
    (addresses, markers, capacity_left, next_capacity and every upstream call). *)
 From Coq Require Import ZArith List Bool.
-From FM Require Import FixedStack Stack StackProofs.
+From FM Require Import FixedStack Stack StackProofs StackUnwindProofs.
 Import ListNotations.
 Local Open Scope Z_scope.
 
@@ -68,6 +68,26 @@ Theorem C06_release_only_on_shrink : forall fence s o ans,
   o = SShrink \/ forallb (fun c => match c with UFree _ _ => false | _ => true end) calls = true.
 Proof. exact release_only_on_shrink. Qed.
 Print Assumptions C06_release_only_on_shrink.
+
+(* older allocations are untouched: after any history of well-formed requests with fresh upstream blocks, unwinding to any
+   marker that is still valid writes (the freed-memory fill of the range above the marker and of every block it drops) only
+   outside every allocation that survives the unwind.  CInv = stack invariant + marker validity + "no live allocation
+   straddles a marker", which holds for a freshly constructed stack and is preserved by every operation. *)
+Theorem C06_older_allocations_untouched : forall fence, 0 <= fence -> forall st0 h, CInv st0 -> hall fence st0 h ->
+  let st1 := hrun fence st0 h in
+  forall gm, In gm (snd st1) ->
+    let r := step fence (fst st1) (SUnwind (fst gm)) None in
+    Forall (fun wr => Forall (adisj wr) (s_live (fst (fst (fst r))))) (snd r).
+Proof. exact older_allocations_untouched. Qed.
+Print Assumptions C06_older_allocations_untouched.
+
+Theorem C06_invariant_along_histories : forall fence, 0 <= fence -> forall h st, CInv st -> hall fence st h -> CInv (hrun fence st h).
+Proof. exact hrun_cinv. Qed.
+Print Assumptions C06_invariant_along_histories.
+
+Theorem C06_fresh_stack_satisfies_the_invariant : forall k bs a s calls, 0 < a -> hdr < bs -> init k bs (Some a) = Some (s, calls) -> CInv (s, []).
+Proof. exact init_cinv. Qed.
+Print Assumptions C06_fresh_stack_satisfies_the_invariant.
 
 (* non-vacuity: a concrete history crossing two block boundaries with nested markers *)
 Example C06_nonvacuous :
